@@ -32,7 +32,8 @@ def run_plugin_inprocess(plugin: str, doc, out_dir: str) -> None:
     mod = importlib.import_module(f"generator.plugins.{plugin}")
     logging.disable(logging.CRITICAL)
     try:
-        mod.generate(spec, out_dir, os.path.join(out_dir, "_tests"))
+        os.makedirs(out_dir, exist_ok=True)
+        mod.generate(spec, out_dir, gen.prepare_test_dir(plugin, out_dir))
     finally:
         logging.disable(logging.NOTSET)
 
